@@ -160,6 +160,7 @@ func cmdVerify(args []string) {
 	t2 := time.Now()
 	e.solveAll(results, false)
 	fmt.Printf("solved in %.1fs\n", time.Since(t2).Seconds())
+	seenFail := map[string]bool{}
 	for _, r := range results {
 		byName := map[string][]*Obligation{}
 		var names []string
@@ -180,7 +181,11 @@ func cmdVerify(args []string) {
 					status = o.Status
 					worst = o
 					if *verbose {
-						fmt.Printf("       failing instance [%s]: %s (path %s)\n", o.Status, o.Desc, o.Path)
+						key := o.Status + "|" + o.Desc
+						if !seenFail[key] {
+							seenFail[key] = true
+							fmt.Printf("       failing instance [%s]: %s (first path %s)\n", o.Status, o.Desc, o.Path)
+						}
 					}
 				}
 			}
